@@ -248,6 +248,46 @@ def run(chk):
                 chk.nontrivial.add(repr((t['version'], t['expr'])))
         if i % 997 == 0:
             chk.sample({'task': {k: v for k, v in t.items() if k != 'id'}, 'result': res})
+    # ---- schema-bound parsers: parse() evaluates the expression against the schema (static evaluation); with arguments that
+    # select nothing from the schema root, or sample values of the declared types, only ElementPathError may come out
+    try:
+        import xmlschema
+        sys.path.insert(0, os.path.join(os.path.dirname(os.path.abspath(__file__))))
+        import c20 as _c20
+        from elementpath import ElementPathError as _EPE
+        from elementpath.xpath31 import XPath31Parser as _P31
+        _schema = xmlschema.XMLSchema10(_c20.TYPED_XSD)
+        _ns = {'math': 'http://www.w3.org/2005/xpath-functions/math', 'map': 'http://www.w3.org/2005/xpath-functions/map', 'array': 'http://www.w3.org/2005/xpath-functions/array'}
+        _pre = {'http://www.w3.org/2005/xpath-functions': '', _ns['math']: 'math:', _ns['map']: 'map:', _ns['array']: 'array:'}
+        _ps = _P31(schema=_schema.xpath_proxy, namespaces=dict(_ns))
+        ARGS_S = ['i', 't', 'd', 'b', 'l', 'u', 'p', 'e', 'n', '@a', '/r/i', '/r/t', '/r/d', '/r/l', '/r/u', '/r/e', '/r/@a', '.', '/r', 'x', '/r/x', "'a'", '1', '()']
+        seen_s = set()
+        calls_s = []
+        for (qname, arity), sig in sorted(_ps.function_signatures.items(), key=lambda kv: (kv[0][0].namespace or '', kv[0][0].local_name, kv[0][1])):
+            pre = _pre.get(qname.namespace)
+            if pre is None or arity not in (1, 2) or (qname, arity) in seen_s:
+                continue
+            seen_s.add((qname, arity))
+            f = pre + qname.local_name
+            calls_s += [f'{f}({a})' for a in ARGS_S] if arity == 1 else [f'{f}({a}, {b})' for a in ARGS_S[:14] for b in ('1', "'a'", 'i', 't', '/r/i', '()')]
+        calls_s += [f'{a} {op} {b}' for op in ('+', '-', '*', 'div', 'idiv', 'mod', 'eq', 'lt', '=', '<', 'to', '||', 'and', 'or', '|', 'intersect', 'except', 'is', '<<', '!', ',')
+                    for a in ARGS_S[:21:2] for b in ARGS_S[:21:3]]
+        if quick:
+            calls_s = chk.rng.sample(calls_s, 2500)
+        for c in calls_s:
+            chk.evaluations += 1
+            chk.count('schema-static-evaluation')
+            try:
+                _ps.parse(c)
+            except _EPE:
+                pass
+            except RecursionError as ex:
+                chk.violation('foreign-exception', {'parser': 'XPath31Parser(schema=typed scenario)', 'source': c}, 'RecursionError')
+            except Exception as ex:
+                chk.violation('foreign-exception', {'parser': 'XPath31Parser(schema=typed scenario)', 'source': c}, {'exception': type(ex).__name__, 'message': str(ex)[:200]})
+            chk.nontrivial.add('schema-static:' + c)
+    except ImportError as ex:
+        chk.notes.append('schema-bound parser section skipped: ' + str(ex))
     chk.rule = ('histories: 2-7 sources per parser instance drawn from failing sources (unterminated comments, dangling =>, ...), '
                 'valid seeds and 1-2 token mutants, each step compared with a fresh instance (outcome + instance state); '
                 'evaluation streams: seeds, token mutants and random short strings parsed and evaluated on a small document in '
